@@ -839,7 +839,7 @@ def run(ctx):
     common.prepare_lean(ctx, PROP, IMPORTS, THEOREMS, generated=generated)
     lines, pending = [], {}
     directed(ctx, lines, pending)
-    explore(ctx, ctx.n(2, 20), lines, pending, model_share=ctx.n(1.0, 0.5))
+    explore(ctx, ctx.n(4, 24), lines, pending, model_share=ctx.n(1.0, 0.5))
     check_model(ctx, lines, pending)
     return ctx.finish(search)
 
